@@ -107,6 +107,17 @@ Theorem C03_enum_statement_adds_assigned_names : forall al d st lvs ut st1 w e r
   exists nss st2, Forall2 (fun lv ns => lv_names lv = Ok ns) lvs nss /\ leave_assign st1 = Ok st2 /\
     vs_stack st2 = FEnum (enum_add_instances e (map (fun n => (e_id e ++ K"/" ++ n, n)) (List.concat nss))) :: r.
 Proof. exact enum_assignment_statement. Qed.
+(* ... lifted to the WHOLE BODY of an enum, for every enum definition at module level and every state of the walk: the module
+   gains exactly one enum record, named like the class, with the id <module id>/<name>, whose instances are the names assigned
+   by the assignment statements of the body (member_names: the targets of a statement left to right, tuple targets
+   flattened) in source order, each once, under <enum id>/<name>; methods, properties and nested classes of the body
+   contribute nothing (the walker visits only the assignments of an enum body: fix 5e57c43) *)
+Theorem C03_front_enum_inventory : forall al d pref_doc warn c st st' w m r,
+  walk_member al d pref_doc warn st (CMClass c) = Ok (st', w) -> is_enum_def c = true -> vs_stack st = FModule m :: r ->
+  exists e nss, vs_stack st' = FModule (mod_add_enum m e) :: r /\ e_name e = cd_name c /\ e_id e = id_from_stack st (cd_name c) /\
+    Forall2 member_names (filter (fun x => enum_child x && negb (is_placeholder x)) (cd_defs c)) nss /\
+    e_instances e = inst_pairs e (List.concat nss).
+Proof. exact enum_inventory. Qed.
 (* Generator: the stub of an enum is its signature and - when the record lists instances - a brace block with one line per
    listed instance, in the order of the record, each once (the name passes through emit_name like every other name) *)
 Theorem C03_enum_stub_lists_every_instance_once : forall nc e,
@@ -132,3 +143,4 @@ Print Assumptions C03_method_is_rendered_in_place.
 Print Assumptions C03_enum_assignment_adds_its_instances.
 Print Assumptions C03_enum_stub_lists_every_instance_once.
 Print Assumptions C03_enum_statement_adds_assigned_names.
+Print Assumptions C03_front_enum_inventory.
